@@ -73,7 +73,13 @@ class TrackProgram:
             elif place == "field":
                 c, fq, cnt = name("H"), name("hq"), r.randrange(1, 4)
                 st, out = prep("o.%s" % fq, kind)
-                classes.append("class %s { @tracked public qubit %s; public constructor() -> %s = default; }" % (c, fq, c))
+                if r.random() < 0.4:
+                    # the tracked qubit is inherited: the dying object's class declares no qubit of its own
+                    cb = name("HB")
+                    classes.append("class %s { @tracked public qubit %s; public constructor() -> %s { } }" % (cb, fq, cb))
+                    classes.append("class %s extends %s { public int pad = 1; public constructor() -> %s { super(); } }" % (c, cb, c))
+                else:
+                    classes.append("class %s { @tracked public qubit %s; public constructor() -> %s = default; }" % (c, fq, c))
                 how = r.choice(["scope", "destroy"])
                 for _ in range(cnt):
                     body += ["{ %s o = new %s(); %s %s }" % (c, c, " ".join(st), "destroy o;" if how == "destroy" else "")]
